@@ -39,7 +39,18 @@ def run():
              "others contain only a normalised form of it (the stripped text as a prefix of another id, at the end "
              "of the message, followed by a different whitespace character, in another case, matching as a "
              f"pattern); (5) {driver.n_old(b.tier)} seeded cases over the DAGs of (2) with commit times spread over "
-             "31-45 days and every branch head among the commits of the last 29 days. non-trivial = >= 2 branches, >= 1 build and >= 1 matching commit reachable "
+             "31-45 days and every branch head among the commits of the last 29 days; (6) branch names one of which "
+             "is a proper prefix of another (numeric-aware order: the prefix first): exhaustive small scope as in (1) "
+             "with the names, in this order of declaration, " +
+             '; '.join(f"n={n} {names}" for _, n, names in driver.PREFIX_NAME_LISTS_QUICK +
+                       (driver.PREFIX_NAME_LISTS_THOROUGH if b.tier == 'thorough' else [])) +
+             f"; {driver.n_prefix_names(b.tier)} seeded cases over the DAGs of (2) with 2-3 release branches "
+             "(+ master in 4 of 5) named release/<stem><numbers joined by one of . - _ />, stem one of '', rel-, r_, "
+             "lts/: a number tuple t of 1-2 numbers, t continued by one number, and one of: t continued by two "
+             "numbers, a sibling differing in the last number (9 against 10), a shorter prefix of t, a name continued "
+             "by a word (rc, hotfix); refs declared in shuffled order; in half of the cases the heads of t and of its "
+             "continuation sit on two commits neither reachable from the other, each with a matching message. "
+             "non-trivial = >= 2 branches, >= 1 build and >= 1 matching commit reachable "
              "from a head. Families: " + ', '.join(f"{k}={v}" for k, v in fam.items()),
         exhaustive=False,
         extra={'exhaustive_families': [k for k in fam if k.startswith('small-')]})
@@ -50,8 +61,14 @@ def run():
             _seen.add(_v.key)
             _viol.append(_v)
     return finish(PROP, 'exploration', _viol, pu, pe + b.errors, cov, passumed +
-                  ["branch names are release/<major>.<minor> and master (every numeric-aware order agrees on them; "
-                   "BranchName.cmp on other names is a proof-tier obligation)",
+                  ["branch names are master and release/<parts joined by / . _ -> with one separator style per repository; "
+                   "'numeric-aware name' is read as: the name cut at the separators, parts of digits compared as "
+                   "numbers, other parts as strings, a name whose parts are a proper prefix of another's first "
+                   "(release/10 < release/10.1 < release/10.1.2 < release/10.2 < release/10.10). Only sets of names "
+                   "on which this reading and the 'natural sort' of the raw name (maximal digit runs as numbers) "
+                   "agree and are strict are generated (checked on every case): no number against a word in the same "
+                   "position, no names differing only in separators or leading zeros, lower-case words. "
+                   "BranchName.cmp on other names is a proof-tier obligation",
                    "a build commit is a commit carrying a tag build_<n>_<branch>_success (the default build detector)",
                    "commit times: either all within a span of 29 days, or (family old-history) spread over up to 45 "
                    "days with every branch head at most 29 days older than the newest commit of the repository - no "
